@@ -1,6 +1,8 @@
 import OnlVerif.Lemmas.TcpSink
 import OnlVerif.Lemmas.TcpSender
 import OnlVerif.Lemmas.TcpLoop
+import OnlVerif.Lemmas.TcpAckMono
+import OnlVerif.Lemmas.TcpReorder
 import OnlVerif.Lemmas.GenSink
 import OnlVerif.Lemmas.TcpLiveQuiet
 import OnlVerif.Lemmas.TcpLiveRun
@@ -12,7 +14,9 @@ import OnlVerif.Lemmas.TcpLiveTRun
   is the length of the contiguous prefix of the bytes received so far, hence monotone; the buffer stays sorted,
   pairwise non-touching, and covers exactly the received bytes.  Sequence numbers and sizes are natural numbers.
 * **Sender** (`OnlVerif/Tcp/CC.lean`, LTS of `TCPPacketGenerator` over exact rationals `ℚ`): no sequence of actions
-  raises; on a loss-free, timely path nothing is sent twice; partial progress lemmas.
+  raises; the acknowledged mark never moves back, whatever the order of the ACKs (`last_ack_monotone`, `stale_ack_is_noop`;
+  in the closed loop over a reordering return path: `reordering_return_path_safe`);
+  on a loss-free, timely path nothing is sent twice; partial progress lemmas.
 * **Closed loop** (`OnlVerif/Tcp/Loop.lean`, `LoopLive.lean`: sender ∥ lossy FIFO data path ∥ sink ∥ lossy FIFO ACK
   path) for a finite flow: the run never ends early (`quiescent_implies_complete`), never gets stuck (`never_stuck`),
   no reachable state is a dead end (`can_always_complete`), and every run with finitely many losses terminates with
@@ -152,11 +156,11 @@ theorem new_segment_is_timed_partial (s s' : Sender ℚ) (tx : Tx ℚ) (h : Inv 
   exact AL.mem_of_get?_some (AL.get?_set_self _ _ _)
 
 /-- **(b) a timer is cancelled only by an ACK that covers or answers its segment**: if an accepted action removes
-`q` from the pending timers, the action is a new ACK with `q < ackno` or `q = packet_id`.  So an unacknowledged segment
-stays under a live timer. -/
+`q` from the pending timers, the action is a new ACK (`ackno > last_ack`: an ACK overtaken by a later one cancels nothing,
+`stale_ack_is_noop`) with `q < ackno` or `q = packet_id`.  So an unacknowledged segment stays under a live timer. -/
 theorem timer_cancelled_only_by_ack_partial (s s' : Sender ℚ) (a : Act ℚ) (outs : List (Tx ℚ)) (h : Inv s) (ha : ActOk a)
     (hs : s.step a = .ok s' outs) (q : Nat) (hq : q ∈ AL.keys s.timers) (hq' : q ∉ AL.keys s'.timers) :
-    ∃ x, a = .ack x ∧ x.ackno ≠ s.last_ack ∧ (q < x.ackno ∨ q = x.pid) :=
+    ∃ x, a = .ack x ∧ s.last_ack < x.ackno ∧ (q < x.ackno ∨ q = x.pid) :=
   timer_cancel_only_by_ack s s' a outs h ha hs q hq hq'
 
 /-- **(c) a pending timer that comes due retransmits its segment and stays pending** with the doubled RTO — so an
@@ -180,13 +184,52 @@ theorem due_timer_retransmits_and_rearms_partial (s : Sender ℚ) (seq : Nat) (t
   rw [AL.get?_set_self, hr2, arm_eq _ _ (by linarith)]
 
 /-- **(d) an ACK that gets through moves `last_ack` to its number and cancels the timers it covers**: after a new ACK
-`x`, `last_ack = x.ackno`, no segment below `x.ackno` and not the answered segment `x.pid` is still timed, every other
+`x` (`x.ackno > last_ack`), `last_ack = x.ackno`, no segment below `x.ackno` and not the answered segment `x.pid` is still timed, every other
 timer is untouched, and the `run` process is given a wake-up token. -/
-theorem new_ack_advances_partial (s : Sender ℚ) (x : AckIn ℚ) (h : Inv s) (hok : AckOk s x) (hnew : x.ackno ≠ s.last_ack) :
+theorem new_ack_advances_partial (s : Sender ℚ) (x : AckIn ℚ) (h : Inv s) (hok : AckOk s x) (hnew : s.last_ack < x.ackno) :
     ∃ s', s.step (.ack x) = .ok s' [] ∧ s'.last_ack = x.ackno ∧ s'.tokens = s.tokens + 1 ∧
       ∀ q, q ∈ AL.keys s'.timers ↔ q ∈ AL.keys s.timers ∧ ¬ (q < x.ackno ∨ q = x.pid) := by
   obtain ⟨T, S, r, _, _, hT, _⟩ := ackStep_new_spec s x h.cc h.keys h.nodup hok hnew
   exact ⟨_, r, rfl, rfl, hT⟩
+
+/-! ### the acknowledged mark is cumulative: it never moves back -/
+
+/-- **The sender's acknowledged mark `last_ack` never decreases - for ACKs arriving in *any* order.**  In every state
+reachable from a state satisfying the invariant (a fresh generator: `inv_init`) by accepted actions, every further accepted
+action - a resumption of `run`, a token hand-off, a timer expiry, a clock tick, or an ACK with an arbitrary number, echoed
+packet id and RTT sample, in particular one that was overtaken on the return path by a later cumulative ACK - leaves
+`last_ack` where it is or moves it forward; hence `last_ack` is non-decreasing along the whole run.  No FIFO hypothesis on
+the return path.  (Before the repair of `put` - `if ackno < self.last_ack: return` - an overtaken ACK was taken for a new one
+and moved the mark *back*: `known_findings.jsonl`, `findings/demos/C16_stale_ack.py`.) -/
+theorem last_ack_monotone (s0 s s' : Sender ℚ) (h0 : Inv s0) (hr : Reach s0 s) (a : Act ℚ) (ha : ActOk a)
+    (outs : List (Tx ℚ)) (hs : s.step a = .ok s' outs) :
+    s.last_ack ≤ s'.last_ack ∧ s0.last_ack ≤ s.last_ack :=
+  ⟨step_last_ack_mono (reach_inv h0 hr) ha hs, reach_last_ack_mono h0 hr⟩
+
+/-- **An ACK overtaken by a later cumulative one is ignored**: an acknowledgement with `ackno < last_ack` (well-formed:
+`flow_id ≥ 10000`, not stamped in the future) is accepted, leaves the *whole* sender state unchanged - `last_ack`, `dupack`,
+the window, the RTT estimator and RTO, the timers, the wake-up store - and sends nothing: it acknowledges nothing new and is
+not a duplicate either.  From any state. -/
+theorem stale_ack_is_noop (s : Sender ℚ) (x : AckIn ℚ) (hf : 10000 ≤ x.fid) (hp : x.ptime ≤ s.now)
+    (hst : x.ackno < s.last_ack) : s.step (.ack x) = .ok s [] :=
+  ackStep_stale s x ⟨hf, hp⟩ hst
+
+/-- the hypotheses of `stale_ack_is_noop` and `last_ack_monotone` are met by a reachable state, and the conclusion is not
+empty: the bulk scenario of the demo (3 segments, window of 3 segments, the ACKs come back in the order 1024, 1536, 512).
+All six actions are accepted; after the overtaken ACK 512 the mark is still 1536 (the unrepaired code ended with 512) -/
+example : ((runActs (Sender.init .reno ({ (TCPCubic.defaults : CCState ℚ) with mss := 512, cwnd := 1536, ssthresh := 65535 })
+      10 512 (some 1536) 0)
+    [.wake 8, .tick 1, .ack { fid := 10000, ackno := 1024, pid := 512, ptime := 0 },
+     .ack { fid := 10000, ackno := 1536, pid := 1024, ptime := 0 }, .tick 2,
+     .ack { fid := 10000, ackno := 512, pid := 0, ptime := 0 }]).map fun s => (s.last_ack, s.next_seq, s.dupack, s.timers.length))
+    = some (1536, 1536, 0, 0) := by decide +kernel
+
+/-- … and the state before that last ACK already had `last_ack = 1536 > 512` -/
+example : ((runActs (Sender.init .reno ({ (TCPCubic.defaults : CCState ℚ) with mss := 512, cwnd := 1536, ssthresh := 65535 })
+      10 512 (some 1536) 0)
+    [.wake 8, .tick 1, .ack { fid := 10000, ackno := 1024, pid := 512, ptime := 0 },
+     .ack { fid := 10000, ackno := 1536, pid := 1024, ptime := 0 }, .tick 2]).map fun s => (s.last_ack, decide (s.now = 2)))
+    = some (1536, true) := by decide +kernel
 
 /-! ### the closed loop (sender ∥ lossy FIFO data path ∥ sink ∥ lossy FIFO ACK path, `OnlVerif/Tcp/Loop.lean`) -/
 
@@ -213,6 +256,36 @@ theorem acks_in_flight_are_backed_partial (s0 : Sender ℚ) (l : Loop ℚ) (h0 :
   · obtain ⟨hsep', _⟩ := packetArrived_spec l.sink tx.seq tx.size j.sink
     obtain ⟨n, hn, _⟩ := ackOf_isPrefix _ hsep' (packetArrived_ne_nil l.sink tx.seq tx.size)
     exact ⟨n, by unfold TcpSink.put; exact hn⟩
+
+/-- **Over a return path that reorders and loses ACKs, the sender's acknowledged mark stays a correct cumulative
+acknowledgement.**  `TcpReorder.RReach`: the runs of the closed loop (sender bursts, deliveries over the FIFO data path, losses
+on both paths, clock ticks, in any interleaving) in which additionally *any* ACK in flight - not only the oldest - may reach the
+sender next (`Loop.ackArriveAt i`).  In every state of such a run from a fresh sender: the mark has not moved back, and no
+further step moves it back; **every byte below `last_ack` is held by the sink**; every segment issued so far is at the sink or
+under a pending retransmission timer; no ACK in flight can make `put` raise.  (That such runs also *complete* is searched by the
+overtaken-ACK leg of the correspondence check, not proved: the liveness theorems below are for FIFO paths.) -/
+theorem reordering_return_path_safe (s0 : Sender ℚ) (l : Loop ℚ) (h0 : Inv s0) (hm : 0 < s0.mss) (hl : s0.last_ack = 0)
+    (hr : TcpReorder.RReach (Loop.init s0) l) :
+    s0.last_ack ≤ l.snd.last_ack ∧ (∀ l', TcpReorder.RStep l l' → l.snd.last_ack ≤ l'.snd.last_ack) ∧
+    (∀ b, b < l.snd.last_ack → Covers l.sink b) ∧
+    (∀ q ∈ l.issued, Covers l.sink q ∨ q ∈ AL.keys l.snd.timers) ∧
+    (∀ a ∈ l.acks, ∀ e, l.snd.step (.ack a) ≠ .error e) ∧ Inv l.snd := by
+  have j := TcpReorder.reach_J (J_init s0 h0 hm) hr
+  have m := TcpReorder.reach_mark (J_init s0 h0 hm) hr
+  refine ⟨m.mono, fun l' hs => (TcpReorder.mark_step j hs).mono, ?_, j.issued, fun a ha => ?_, j.snd⟩
+  · refine m.held (fun b hb => ?_)
+    have : (Loop.init s0).snd.last_ack = 0 := hl
+    omega
+  · exact (step_safe j.snd (.ack a) (j.acks a ha).1).1
+
+/-- such a run, with a real overtaking: three segments are sent and delivered, their ACKs (512, 1024, 1536) are in flight; the
+second and the third arrive first, then the first one - below the mark.  Every step is accepted (`TcpReorder.runR_sound`); at
+the end `last_ack = 1536`, the sink holds `[0, 1536)` and nothing is in flight -/
+example : ((TcpReorder.runR (Loop.init (Sender.init .reno ({ (TCPCubic.defaults : CCState ℚ) with mss := 512, cwnd := 1536, ssthresh := 65535 })
+      10 512 (some 1536) 0))
+    [.inl (.own (.wake 8)), .inl .deliver, .inl .deliver, .inl .deliver, .inr 1, .inr 1, .inr 0]).map
+      fun l => (l.snd.last_ack, l.sink, l.acks.length, l.snd.timers.length))
+    = some (1536, [(0, 1536)], 0, 0) := by decide +kernel
 
 /-! ### liveness, safety half: no premature quiescence -/
 
@@ -403,7 +476,19 @@ armed for less than the resolution of the clock never fires (`TimerRec.live = fa
 (3) in `TLoop` a path may deliver *before* the instant it announced and the clock moves from event to event - a
 superset of the runs of a path with fixed per-packet delays, so nothing is lost, but the bound on the *time* of
 completion (as opposed to the number of steps) is not stated; (4) flows with `start_time`, `finish_time`,
-`arrival_dist`, `size_dist` or a size that is not a multiple of the MSS are outside the model (as for the rest of C16).
+`arrival_dist`, `size_dist` or a size that is not a multiple of the MSS are outside the model (as for the rest of C16);
+(5) both paths of `Loop` / `TLoop` are FIFO lists: that an ACK in flight is never below the acknowledged mark
+(`liveness_invariant`, fourth clause) is a *consequence* of that model, not a hypothesis of the theorems, and the termination
+measures use it.  For a return path that reorders ACKs what is proved is the sender-level part, for ACKs in any order:
+`sender_never_raises`, `last_ack_monotone` (the mark never moves back), `stale_ack_is_noop` (an overtaken ACK changes nothing),
+`timer_cancelled_only_by_ack_partial`, and the safety half in the closed loop, `reordering_return_path_safe` (the mark never
+moves back, everything below it is at the sink, what the sink lacks is timed, nothing raises); that such runs complete is searched by the overtaken-ACK leg of `harness/c16.py`
+(free return path, held ACKs, application-limited flows), not proved.
+
+**A finding** (repaired: `fix:` commit "the TCP sender ignores an acknowledgement overtaken by a later cumulative one"): `put`
+took an ACK with `ackno < last_ack` for a new ACK and moved `last_ack` back; the event queue could run empty with `last_ack`
+short of the flow size although the sink held everything, and an application-limited flow could stall for ever
+(`findings/demos/C16_stale_ack.py`).  With the early return `last_ack_monotone` holds without any order hypothesis.
 
 **A finding**: `mss ≤ cc.mss` is needed.  `TCPPacketGenerator.mss` is the constant 512 while the congestion-control
 object has its own `mss` parameter; with `TCPReno(mss=100, cwnd=512)`, a flow of 1024 bytes and the first transmission
